@@ -111,9 +111,12 @@ class FakeTransport:
 class World:
     """n real nodes (indices 1..n), outsider index n+1; address/peer index 0 is the zero address."""
 
-    def __init__(self, n: int, rng: _random.Random, delay: float = 0, hidden: bool = False, dualstack=()):
+    def __init__(self, n: int, rng: _random.Random, delay: float = 0, hidden: bool = False, dualstack=(),
+                 gated: bool = False):
         import vclock
         self.delay = delay
+        self.gated = gated
+        self.join_gates: list[list] = []      # [node, circuit id, source address, future]
         self.hidden = hidden
         self.v6_of: dict[int, tuple] = {}
         from ipv8.messaging.anonymization import exit_socket as es_mod
@@ -200,6 +203,19 @@ class World:
 
             for ep in (list(node.endpoint.interfaces.values()) if i in dualstack else [node.endpoint]):
                 ep.send = types.MethodType(send, ep)
+            if gated and i <= n:
+                # the documented hook should_join_circuit, overridden by a policy that really suspends: the harness decides
+                # when the decision is in (the stock check runs then)
+                def make_hook(ov_, idx):
+                    stock = ov_.should_join_circuit
+
+                    async def hook(payload, addr):
+                        fut = world.loop.create_future()
+                        world.join_gates.append([idx, payload.circuit_id, tuple(addr), fut])
+                        await fut
+                        return await stock(payload, addr)
+                    return hook
+                node.overlay.should_join_circuit = make_hook(node.overlay, i)
             if i not in dualstack:
                 node.wan = tuple(node.endpoint.wan_address)
             self.nodes.append(node)
@@ -338,6 +354,9 @@ class World:
             for _, _, fut in self.gates:
                 if not fut.done():
                     fut.cancel()
+            for g_ in self.join_gates:
+                if not g_[3].done():
+                    g_[3].cancel()
             for node in self.nodes[1:]:
                 try:
                     await node.stop()
@@ -490,6 +509,10 @@ class History:
             d["search"] = self.search
         if getattr(self, "intro", None):
             d["intro"] = self.intro
+        if getattr(self, "closing", None):
+            d["closing"] = self.closing
+        if getattr(self, "rdv", None):
+            d["rdv"] = self.rdv
         if getattr(self, "dual", None):
             d["dual"] = True
         if extra:
@@ -627,11 +650,13 @@ class History:
                 if self.circs.get((i, cid_label), {}).get("abused"):
                     self.ctx.count("delivered:on-a-circuit-its-owner-re-plumbed")
                     continue
-                if c_ is None or len(c_.hops) >= c_.goal_hops:
-                    # NOT the known finding: the circuit is complete, every layer of a genuine reply is checked
+                if c_ is None or len(c_.hops) >= c_.goal_hops or not c_.hops:
+                    # NOT the known finding (which needs >= 1 verified hop that already relays): the circuit is complete -
+                    # every layer of a genuine reply is checked - or has no verified hop at all, i.e. no keys
                     self.fail("TunnelCommunity.on_data:third-party-data-delivered",
-                              f"an unencrypted DATA cell of a third party was delivered at node {i} as data of the complete "
-                              f"circuit {cid_label}", {"tag": [d, o, cid, seq]})
+                              f"an unencrypted DATA cell of a third party was delivered at node {i} as data of circuit "
+                              f"{cid_label} ({'gone' if c_ is None else c_.state + ', ' + str(len(c_.hops)) + ' of ' + str(c_.goal_hops) + ' hops verified'})",
+                              {"tag": [d, o, cid, seq]})
                     continue
                 was_failed = self.failed
                 self.fail("TunnelCommunity.on_data:third-party-data-delivered-while-extending",
@@ -816,6 +841,34 @@ class History:
         self.record(f"dlvs {idx} {w.aidx(src)} {ch}".rstrip(), node, "redirect", True,
                     ("dlvs", role, len(w.step_sends), bool(w.step_orig), bool(w.step_exit)))
         self.ctx.count(f"redirect_role:{role}")
+
+    def act_join_gate(self, k: int | None = None):
+        """The suspended should_join_circuit hook of one waiting CREATE returns: join_circuit runs now, WITHOUT on_create's
+        guards being evaluated again.  Whatever happened meanwhile, no existing entry may be replaced."""
+        w = self.w
+        live = [g for g in w.join_gates if not g[3].done()]
+        if not live:
+            return
+        g = live[self.rng.randrange(len(live)) if k is None else k]
+        node, cid = g[0], g[1]
+        mine = [x for x in w.join_gates if x[0] == node]
+        idx = [x for x in mine if not x[3].done()].index(g)
+        before = w.identity(node)
+        role = self.role(node, cid)
+        w.begin()
+        g[3].set_result(None)
+        w.drain()
+        after = w.identity(node)
+        for k_, v_ in before.items():
+            if after.get(k_) != v_:
+                self.fail("TunnelCommunity.join_circuit:existing-entry-replaced-by-a-concurrent-create",
+                          f"node {node}: a CREATE for id {cid} from {g[2]} passed on_create's guards while another one was still "
+                          f"waiting in should_join_circuit; when its turn came the entry {k_[0]} {k_[1]} "
+                          f"{'was replaced' if k_ in after else 'disappeared'}", {"node": node})
+                break
+        self.refresh_bk()
+        self.record(f"jg {node} {idx}", node, "join-hook-returns", True, ("jg", role, len(w.step_sends)))
+        self.ctx.count(f"join_gate:id_role_at_release={role}")
 
     def live_gates(self):
         w = self.w
@@ -1136,6 +1189,10 @@ class History:
                 pool.append((i, cid, "E"))
         if want_roles:
             pool = [x for x in pool if x[2] in want_roles]
+        waiting = [(g[0], g[1]) for g in w.join_gates if not g[3].done()]
+        if waiting and not want_roles and rng.random() < 0.3:
+            self.ctx.count("target:id-of-a-create-waiting-in-the-join-hook")
+            return rng.choice(waiting)
         pend_to = [(i, c.to_circuit_id) for i in range(1, w.n + 1)
                    for k, c in w.ov(i).request_cache._identifiers.items() if k.startswith("create:")]
         if pend_to and not want_roles and rng.random() < 0.08:
@@ -1209,6 +1266,14 @@ class History:
         hit, guess_how = False, ""
         if kind in ("junk", "splice", "pt_other", "pt_created", "pt_created_guess", "clear"):
             node, cid = self.pick_target()
+            if kind == "clear" and "target" not in self.force:
+                hopless = [(i, c) for i in range(1, w.n + 1) for c, x in w.ov(i).circuits.items()
+                           if not x.hops and x.unverified_hop is not None]
+                if hopless and rng.random() < 0.3:
+                    node, cid = rng.choice(hopless)
+                    self.force_src = tuple(w.ov(node).circuits[cid].unverified_hop.address)
+                    self.ctx.count("clear:at-hopless-circuit-from-its-pending-hop:"
+                                   + w.ov(node).circuits[cid].state)
             if kind == "pt_created_guess" and "target" not in self.force:
                 pend = [(i, c) for i in range(1, w.n + 1) for c in w.ov(i).circuits
                         if w.ov(i).request_cache.has("retry", c)]
@@ -1217,6 +1282,8 @@ class History:
                 if pend and rng.random() < 0.8:
                     node, cid = rng.choice(pend)
             src = self.pick_src(node)
+            if getattr(self, "force_src", None):
+                src, self.force_src = self.force_src, None
             role = self.role(node, cid)
             before = w.snapshot(node)
             re_ = rng.random() < 0.5
@@ -1300,6 +1367,11 @@ class History:
             acct = w.accounting(node)
             w.begin()
             w.inject(node, src, cell.to_bin(w.prefix), self.force.get("iface"))
+            if kind in ("junk", "splice", "clear", "pt_other") and not hit and (w.step_exit or w.step_orig):
+                self.fail("PythonCryptoEndpoint.process_cell:forged-cell-delivered",
+                          f"forged {kind} cell for id {cid} (role {role}) from {src} at node {node} was delivered: "
+                          f"{len(w.step_exit)} datagram(s) left an exit socket, {len(w.step_orig)} handed to the application",
+                          {"node": node})
             if kind in ("junk", "splice", "clear", "pt_other") and not hit:
                 # O7: a cell that is dropped before it reaches any handler must not move the traffic counters or the
                 # heartbeat of a circuit / exit socket (they decide about inactivity and traffic-limit removal)
@@ -1488,9 +1560,13 @@ class History:
     # ---- driver ------------------------------------------------------------------------------------------
     def flush(self, limit=600, gates=True):
         n = 0
-        while (self.w.flight or (gates and self.live_gates())) and n < limit and not self.failed:
+        def waiting():
+            return [g for g in self.w.join_gates if not g[3].done()]
+        while (self.w.flight or waiting() or (gates and self.live_gates())) and n < limit and not self.failed:
             if self.w.flight:
                 self.act_deliver(0)
+            elif waiting():
+                self.act_join_gate(0)
             else:
                 self.act_gate(0)
             n += 1
@@ -1510,7 +1586,7 @@ class History:
           R  a second party asks E for a circuit under the SAME id (second = a real originator, node 2, or the outsider),
           F  the held CREATE reaches node 4,   B  node 4's CREATED comes back to E (and what follows is delivered).
         Afterwards every circuit that is READY must still work; O8 watches which exit entry the extension lands on."""
-        _random.seed(self.sc_seed)
+        _random.seed(self.sc_seed ^ 0x5DEECE66D)      # not the stream of self.rng: ids drawn by the code must not repeat ids the harness forges
         self.w = World(4, self.rng)
         w = self.w
         try:
@@ -1574,7 +1650,7 @@ class History:
         circuit X of node 1 is accepted by E(3) at T0; the EXTEND towards node 4 is held back and reaches E at T0+late;
         at T0+late+rest the id's created-cache entry has expired while the extension is still pending; X's exit entry
         is destroyed by its owner; a second party asks E for id X; then node 4's CREATED comes back."""
-        _random.seed(self.sc_seed)
+        _random.seed(self.sc_seed ^ 0x5DEECE66D)      # not the stream of self.rng: ids drawn by the code must not repeat ids the harness forges
         self.w = World(4, self.rng)
         w = self.w
         try:
@@ -1643,7 +1719,7 @@ class History:
         1 -> R(3) -> ? -> 5.  R's CREATE to the first candidate is held back; node 1 asks R to extend to the other
         candidate instead, which succeeds (R pairs X with it); then, `wait` seconds later and either before or after the
         circuit is complete (`when`), the first candidate's CREATED arrives at R.  Run with remove_tunnel_delay 0 and 5."""
-        _random.seed(self.sc_seed)
+        _random.seed(self.sc_seed ^ 0x5DEECE66D)      # not the stream of self.rng: ids drawn by the code must not repeat ids the harness forges
         self.w = World(5, self.rng, delay)
         w = self.w
         try:
@@ -1692,7 +1768,7 @@ class History:
         """An off-path party that knows nothing (no key, no identifier, not even a circuit id in use) sends a plaintext
         CREATED for every 16-bit identifier to a relay that has an extension pending.  Nothing may change."""
         from ipv8.messaging.anonymization.payload import CellPayload, CreatedPayload
-        _random.seed(self.sc_seed)
+        _random.seed(self.sc_seed ^ 0x5DEECE66D)      # not the stream of self.rng: ids drawn by the code must not repeat ids the harness forges
         self.w = World(4, self.rng)
         w = self.w
         try:
@@ -1754,7 +1830,7 @@ class History:
         seeder key K / info hash H; then an establish-intro arrives over W (same or another key, same or another hash),
         either from W's owner or - `via` = "nested" - as an outside datagram imitating one.  X's registration must stay."""
         from ipv8.messaging.anonymization.payload import EstablishIntroPayload
-        _random.seed(self.sc_seed)
+        _random.seed(self.sc_seed ^ 0x5DEECE66D)      # not the stream of self.rng: ids drawn by the code must not repeat ids the harness forges
         self.w = World(4, self.rng, hidden=True)
         w = self.w
         try:
@@ -1790,6 +1866,7 @@ class History:
                           f"establish-intro over circuit {kw[1]} ({'same' if same_key else 'other'} key, "
                           f"{'same' if same_hash else 'other'} info hash) changed that registration to "
                           f"{after.get(('I', key_k))}", {"node": 3})
+            self.dangling_registrations(3)
             self.ctx.count(f"intro-points:histories:key={'same' if same_key else 'other'}:hash={'same' if same_hash else 'other'}")
             _ = via
             if not self.failed:
@@ -1797,10 +1874,75 @@ class History:
         finally:
             w.close()
 
+    def dangling_registrations(self, node: int):
+        """Service state of HiddenTunnelCommunity must not outlive the exit socket it belongs to."""
+        o = self.w.ov(node)
+        bad = []
+        for pk, (sock, _) in getattr(o, "intro_point_for", {}).items():
+            if o.exit_sockets.get(sock.circuit_id) is not sock:
+                bad.append(("introduction point", pk.hex()[:12], sock.circuit_id))
+        for cookie, sock in getattr(o, "rendezvous_point_for", {}).items():
+            if o.exit_sockets.get(sock.circuit_id) is not sock:
+                bad.append(("rendezvous cookie", cookie.hex()[:12], sock.circuit_id))
+        if bad:
+            self.fail("HiddenTunnelCommunity.remove_exit_socket:registration-outlives-its-exit-socket",
+                      f"node {node}: {bad} still registered although that exit socket has left the table: the next circuit "
+                      f"that gets this id inherits the registration (link-e2e / create-e2e resolve it by id)", {"node": node})
+        return not bad
+
+    def run_rendezvous(self, cookies: int, intros: int, how: str):
+        """Hidden services: circuit X (node 1) ends in node 3 and registers `cookies` rendezvous cookies and `intros`
+        introduction points on it; then X's exit socket is removed (destroy from the owner / removal at the exit).
+        No registration may survive; a second circuit W with registrations of its own must keep them."""
+        from ipv8.messaging.anonymization.payload import EstablishIntroPayload, EstablishRendezvousPayload
+        _random.seed(self.sc_seed ^ 0x5DEECE66D)      # not the stream of self.rng: ids drawn by the code must not repeat ids the harness forges
+        self.w = World(4, self.rng, hidden=True)
+        w = self.w
+        try:
+            kx, kw = self.act_open((1, 1, 3)), self.act_open((2, 1, 3))
+            self.flush()
+            self.refresh_bk()
+            if kx is None or kw is None or not all(self.circs[k].get("ready") for k in (kx, kw)):
+                self.ctx.count("rendezvous:setup-incomplete")
+                return
+
+            def send(key, pl):
+                o, cid = key
+                c = w.ov(o).circuits[cid]
+                w.begin()
+                w.ov(o).send_cell(c.hop.address, pl)
+                w.drain()
+                self.hist.extend(w.step_sends)
+                self.stepno += 1
+                self.flush()
+            for k in range(cookies):
+                send(kx, EstablishRendezvousPayload(kx[1], 7 + k, bytes([0x40 + k]) * 20))
+            for k in range(intros):
+                send(kx, EstablishIntroPayload(kx[1], 17 + k, bytes([0x50 + k]) * 20, bytes([0x60 + k]) * 32))
+            send(kw, EstablishRendezvousPayload(kw[1], 9, b"\x7e" * 20))
+            o3 = w.ov(3)
+            have = (sum(1 for s_ in o3.rendezvous_point_for.values() if s_.circuit_id == kx[1]),
+                    sum(1 for s_, _ in o3.intro_point_for.values() if s_.circuit_id == kx[1]))
+            self.ctx.count(f"rendezvous:registered:cookies={have[0]}:intros={have[1]}")
+            w.begin()
+            if how == "owner-destroys":
+                w.call(w.ov(1).remove_circuit, kx[1], "harness", destroy=1)
+            else:
+                w.call(o3.remove_exit_socket, kx[1], "harness", destroy=1)
+            self.stepno += 1
+            self.flush()
+            self.dangling_registrations(3)
+            if not self.failed and not any(s_.circuit_id == kw[1] for s_ in o3.rendezvous_point_for.values()):
+                self.fail("HiddenTunnelCommunity.remove_exit_socket:registration-of-another-circuit-dropped",
+                          f"node 3: removing circuit {kx[1]} dropped the rendezvous cookie of circuit {kw[1]}", {"node": 3})
+            self.ctx.count(f"rendezvous:histories:{how}")
+        finally:
+            w.close()
+
     def run_dualstack(self):
         """Configuration class: the exit node runs on a DispatcherEndpoint with an IPv4 and an IPv6 interface.  Two circuits
         end there; after legitimate traffic every kind of forged cell is delivered on EACH interface."""
-        _random.seed(self.sc_seed)
+        _random.seed(self.sc_seed ^ 0x5DEECE66D)      # not the stream of self.rng: ids drawn by the code must not repeat ids the harness forges
         self.w = World(4, self.rng, dualstack=(3,))
         w = self.w
         try:
@@ -1830,11 +1972,42 @@ class History:
         finally:
             w.close()
 
+    def run_closing_hopless(self, delay: float, wait: float):
+        """A circuit whose first hop never answered is given up (retry time-out) and, with remove_tunnel_delay > 0, stays
+        in the table for a while although it never had any key: every kind of forged cell from its pending hop's address
+        (and from elsewhere) must still be dropped."""
+        _random.seed(self.sc_seed ^ 0x5DEECE66D)      # not the stream of self.rng: ids drawn by the code must not repeat ids the harness forges
+        self.w = World(4, self.rng, delay)
+        w = self.w
+        try:
+            self.lines.append("reset 4" + (" defer" if delay else ""))
+            self.expect.append({"sends": [], "tables": None, "log": [], "step": -1, "kind": "reset"})
+            key = self.act_open((1, 1, 3))
+            if key is None:
+                return
+            self.act_advance(wait)              # CREATE never delivered: the retry cache times out, no alternative hop
+            c = w.ov(1).circuits.get(key[1])
+            self.ctx.count("closing-hopless:state:" + (c.state if c is not None else "gone"))
+            for src in (w.addr(3), w.addr(w.n + 1)):
+                for kind in ("clear", "junk", "pt_other", "splice"):
+                    for _ in range(2):
+                        if self.failed or key[1] not in w.ov(1).circuits:
+                            break
+                        self.force = {"kind": kind, "target": (1, key[1]), "src": src}
+                        self.act_forge()
+            self.force = {}
+            if not self.failed:
+                self.act_advance(6)
+                self.final_probe()
+            self.ctx.count(f"closing-hopless:histories:delay={delay}")
+        finally:
+            w.close()
+
     def run_opening(self, seq, hops: int):
         """Small-scope exhaustive scenario: two circuits of different originators end at the SAME exit node; `seq`
         interleaves, per circuit, two first data cells (D) with the completion of its exit socket's IPv4 (4) and
         IPv6 (6) transport, i.e. cells of one circuit arrive at every point of the other socket's opening phase."""
-        _random.seed(self.sc_seed)
+        _random.seed(self.sc_seed ^ 0x5DEECE66D)      # not the stream of self.rng: ids drawn by the code must not repeat ids the harness forges
         self.w = World(4, self.rng)
         w = self.w
         try:
@@ -1952,13 +2125,15 @@ class History:
 
     def run(self):
         ctx, rng = self.ctx, self.rng
-        _random.seed(self.sc_seed)
+        _random.seed(self.sc_seed ^ 0x5DEECE66D)      # not the stream of self.rng: ids drawn by the code must not repeat ids the harness forges
         n = rng.randint(4, 6)
         delay = 5 if rng.random() < 0.3 else 0          # production default vs. the unit tests' setting
+        gated = rng.random() < 0.25                     # should_join_circuit overridden by a suspending policy hook
         ctx.count(f"remove_tunnel_delay:{delay}")
-        self.w = World(n, rng, delay)
+        ctx.count(f"should_join_circuit:{'suspending-hook' if gated else 'stock'}")
+        self.w = World(n, rng, delay, gated=gated)
         try:
-            self.lines.append(f"reset {n}" + (" defer" if delay else ""))
+            self.lines.append(f"reset {n}" + (" defer" if delay else "") + (" gated" if gated else ""))
             self.expect.append({"sends": [], "tables": None, "log": [], "step": -1, "kind": "reset"})
             ncirc = rng.randint(1, 6)
             ctx.count(f"nodes:{n}")
@@ -1972,6 +2147,8 @@ class History:
                 if self.failed or (self.stop_at is not None and self.stepno >= self.stop_at):
                     break
                 r = rng.random()
+                if self.w.gated and rng.random() < 0.35:
+                    self.act_join_gate()
                 early = t < steps // 3
                 if opened < ncirc and r < 0.08:
                     self.act_open()
@@ -2000,6 +2177,8 @@ class History:
                     self.act_send_unfinished()
                 elif r < 0.93:
                     self.act_adversarial_extend()
+                elif r < 0.97 and self.w.gated:
+                    self.act_join_gate()
                 else:
                     self.act_forge()
             if not self.failed and self.stop_at is None and self.do_sweep:
@@ -2139,7 +2318,7 @@ def run_histories(ctx: Ctx, count: int, use_model: bool, sweeps: int = 0):
             replies = ctx.driver().batch(h.lines)
             compare(ctx, h, replies)
         fresh = [f for f in ctx.failures if not f["signature"].endswith("third-party-data-delivered-while-extending")]
-        if len(fresh) >= 3 or len(ctx.disagreements) >= 3:
+        if len(fresh) >= 3 or len(ctx.disagreements) >= 12:
             break
 
 
@@ -2174,7 +2353,7 @@ def run_openings(ctx: Ctx, use_model: bool):
         if use_model and not h.failed:
             compare(ctx, h, ctx.driver().batch(h.lines))
         fresh = [f for f in ctx.failures if not f["signature"].endswith("third-party-data-delivered-while-extending")]
-        if len(fresh) >= 3 or len(ctx.disagreements) >= 3:
+        if len(fresh) >= 3 or len(ctx.disagreements) >= 12:
             break
     ctx.extra["opening_phase_enumeration"] = {"sequences_run": len(seqs), "of": 630,
                                               "exhaustive": ctx.thorough()}
@@ -2196,7 +2375,7 @@ def run_reuses(ctx: Ctx, use_model: bool):
             if use_model and not h.failed:
                 compare(ctx, h, ctx.driver().batch(h.lines))
             fresh = [f for f in ctx.failures if not f["signature"].endswith("third-party-data-delivered-while-extending")]
-            if len(fresh) >= 3 or len(ctx.disagreements) >= 3:
+            if len(fresh) >= 3 or len(ctx.disagreements) >= 12:
                 return
     m = 0
     for late, rest in ((55, 6), (52, 9), (51, 58), (30, 8)):
@@ -2209,7 +2388,7 @@ def run_reuses(ctx: Ctx, use_model: bool):
                 if use_model and not h.failed:
                     compare(ctx, h, ctx.driver().batch(h.lines))
                 fresh = [f for f in ctx.failures if not f["signature"].endswith("third-party-data-delivered-while-extending")]
-                if len(fresh) >= 3 or len(ctx.disagreements) >= 3:
+                if len(fresh) >= 3 or len(ctx.disagreements) >= 12:
                     return
     for _ in range(ctx.scale(1, 3)):
         h = History(ctx, ctx.rng.getrandbits(48))
@@ -2218,8 +2397,14 @@ def run_reuses(ctx: Ctx, use_model: bool):
         if use_model and not h.failed:
             compare(ctx, h, ctx.driver().batch(h.lines))
         fresh = [f for f in ctx.failures if not f["signature"].endswith("third-party-data-delivered-while-extending")]
-        if len(fresh) >= 3 or len(ctx.disagreements) >= 3:
+        if len(fresh) >= 3 or len(ctx.disagreements) >= 12:
             return
+    for delay, wait in ((5, 10.5), (5, 3), (0, 10.5)):
+        h = History(ctx, ctx.rng.getrandbits(48))
+        h.closing = {"delay": delay, "wait": wait}
+        h.run_closing_hopless(delay, wait)
+        if use_model and not h.failed:
+            compare(ctx, h, ctx.driver().batch(h.lines))
     h = History(ctx, ctx.rng.getrandbits(48))
     h.dual = True
     h.run_dualstack()
@@ -2230,6 +2415,10 @@ def run_reuses(ctx: Ctx, use_model: bool):
             h = History(ctx, ctx.rng.getrandbits(48))
             h.intro = {"same_key": same_key, "same_hash": same_hash, "via": "owner"}
             h.run_intro_points(same_key, same_hash, "owner")      # oracle only: hidden services are not in the driver
+    for cookies, intros, how in ((1, 1, "owner-destroys"), (2, 0, "owner-destroys"), (3, 2, "exit-removes"), (2, 1, "exit-removes")):
+        h = History(ctx, ctx.rng.getrandbits(48))
+        h.rdv = {"cookies": cookies, "intros": intros, "how": how}
+        h.run_rendezvous(cookies, intros, how)                     # oracle only, like the introduction-point family
     if len([f for f in ctx.failures if not f["signature"].endswith("third-party-data-delivered-while-extending")]) >= 3:
         return
     k = 0
@@ -2243,7 +2432,7 @@ def run_reuses(ctx: Ctx, use_model: bool):
                 if use_model and not h.failed:
                     compare(ctx, h, ctx.driver().batch(h.lines))
                 fresh = [f for f in ctx.failures if not f["signature"].endswith("third-party-data-delivered-while-extending")]
-                if len(fresh) >= 3 or len(ctx.disagreements) >= 3:
+                if len(fresh) >= 3 or len(ctx.disagreements) >= 12:
                     return
     ctx.extra["id_reuse_enumeration"] = {"orders": len(reuse_orders()), "second_party": 2, "histories": n,
                                          "partial_expiry_histories": m, "late_created_histories": k}
@@ -2268,7 +2457,13 @@ def search(ctx: Ctx, reason: str):
 def replay(ctx: Ctx, rec: dict):
     r = rec.get("replay", rec)
     h = History(ctx, r["sc_seed"], stop_at=None, verbose=True, do_sweep=bool(r.get("sweep")))
-    if r.get("intro"):
+    if r.get("rdv"):
+        h.rdv = r["rdv"]
+        h.run_rendezvous(**r["rdv"])
+    elif r.get("closing"):
+        h.closing = r["closing"]
+        h.run_closing_hopless(**r["closing"])
+    elif r.get("intro"):
         h.intro = r["intro"]
         h.run_intro_points(**r["intro"])
     elif r.get("dual"):
